@@ -3,3 +3,6 @@ import RaftWal.Props.C13
 #print axioms RaftWal.C13.ids_never_reused
 #print axioms RaftWal.C13.create_never_collides
 #print axioms RaftWal.C13.recovered_dir_exact_any_crash
+#print axioms RaftWal.C13.reclaimed_when_released
+#print axioms RaftWal.C13.dropped_files_closed
+#print axioms RaftWal.C13.closed_only_by_finalizer
